@@ -4,8 +4,10 @@ CHECK = dict(
     pkg="c06", level="exploration",
     rule="history of 1-25 operations {push by tag, push by digest, push of a manifest object fetched by ManifestGet from a tagged reference (same system / another layout) "
          "by tag or by digest, tag delete, manifest delete with and without referrer check, list with limit/last, head, get by tag and by digest, Close, "
-         "concurrent batch of 2-4 operations on pairwise distinct tags} over a pool of 5 tags x 5 manifests (two images sharing layers, a Docker image, an OCI index, "
-         "a Docker list), interpreted against the real client and a reference model map[tag]digest + set[digest]; systems: model registry with / without tag DELETE "
+         "concurrent batch of 2-4 operations on pairwise distinct tags} over a pool of 5 tags x 5 manifests drawn per case from a universe of 9 (two OCI images sharing layers always; Docker image, OCI index, "
+         "Docker list, an OCI image addressed by sha512, OCI artifact manifest, unsigned schema1, OCI image without mediaType field); operation variants: tag+digest references, "
+         "reference without tag (latest), WithManifestChild, WithManifest(m) on delete, head without RequireDigest, manifest.WithRef objects, already cancelled context; per case: Close after "
+         "every mutating operation, a fresh client per step, registry that answers 404 for a never-written repository, interpreted against the real client and a reference model map[tag]digest + set[digest]; systems: model registry with / without tag DELETE "
          "(placeholder fall-back), tag-list page cap 0-5, HEAD without digest header, client manifest cache, latency plans; OCI layouts absent / empty / pre-seeded raw in "
          "regclient's style or other tools' styles (full image name in ref.name, io.containerd.image.name, duplicate and adjacent duplicate entries for one tag, untagged "
          "entries, one manifest under several tags). After EVERY step: TagList (all pages), head+get of every pool tag and every pool digest through the client, and raw "
